@@ -376,13 +376,13 @@ impl<'a> Gen<'a> {
                 out.push(op);
             }
             HK::Suspend => {
-                let c = if self.no_abandon { 0 } else { self.rng.weighted(&[6, 2, 1]) };
+                let c = if self.no_abandon || self.no_await { 0 } else { self.rng.weighted(&[6, 2, 1]) };
                 match c {
                     0 => {
                         held[idx].1 = HK::Resumer;
                         let op = self.op(OpKind::Await { h });
                         out.push(op);
-                        if self.no_abandon {
+                        if self.no_abandon || self.no_await {
                             // no pool thread: the context that suspended the queue resumes it before it waits for anything else
                             held.remove(idx);
                             let kk = if self.rng.permille(700) { OpKind::Resume { h } } else { OpKind::DropResumer { h } };
